@@ -194,7 +194,7 @@ impl Spelling {
     pub fn abbreviated() -> Spelling { Spelling { abbrev: true, spaces: false, full_parens: false, redundant: false, outer_ws: false } }
 }
 
-struct R<'a> { sp: Spelling, rng: Option<&'a mut Rng>, out: String }
+struct R<'a> { sp: Spelling, rng: Option<&'a mut Rng>, out: String, top_is_root: bool }
 impl<'a> R<'a> {
     fn ws(&mut self) { if self.sp.spaces { if let Some(r) = self.rng.as_mut() { match r.below(4) { 0 => self.out.push(' '), 1 => self.out.push_str("  "), 2 => self.out.push('\n'), _ => {} } } } }
     fn coin(&mut self) -> bool { match self.rng.as_mut() { Some(r) => r.chance(1, 2), None => true } }
@@ -269,7 +269,9 @@ fn r_step(r: &mut R, s: &Step) {
 fn r_path(r: &mut R, start: &Start, steps: &[Step]) {
     let mut first = true;
     match start {
-        Start::Root => { if steps.is_empty() { r.tok("/"); return; } }
+        // a bare "/" followed by an operator name or "*" is lexed as the start of a path ("/ or x" is a
+        // syntax error by XPath 1.0 section 3.7), so it is parenthesised unless it is the whole expression
+        Start::Root => { if steps.is_empty() { if r.out.is_empty() && r.top_is_root { r.tok("/"); } else { r.tok("(/)"); } return; } }
         Start::Context => {}
         Start::Filter(e, preds) => {
             // a filter expression's primary must be parenthesised unless it is a primary already
@@ -291,7 +293,7 @@ fn r_path(r: &mut R, start: &Start, steps: &[Step]) {
 }
 
 pub fn render(e: &Expr, sp: Spelling, rng: Option<&mut Rng>) -> String {
-    let mut r = R { sp, rng, out: String::new() };
+    let mut r = R { sp, rng, out: String::new(), top_is_root: matches!(e, Expr::Path(Start::Root, st) if st.is_empty()) };
     r_expr(&mut r, e, 0);
     let mut s = r.out;
     if sp.outer_ws { s = format!(" {}\n", s); }
@@ -307,7 +309,24 @@ pub enum RV { Nodes(Vec<usize>), Bool(bool), Num(f64), Str(String) }
 #[derive(Clone, Debug, PartialEq)]
 pub enum RErr { Type(String), UnknownFunction(String), Arity(String), UnboundPrefix(String), Unsupported(String) }
 
-pub struct Env<'a> { pub tree: &'a RTree, pub ns: Vec<(String, String)>, pub default_ns: Option<String> }
+/// Bug-compatible switches: each reproduces one *recorded* defect of xml-rs exactly (see
+/// known_findings.json). With all switches off the evaluator is the XPath 1.0 reference.
+#[derive(Clone, Copy, Default, PartialEq, Debug)]
+pub struct Dev {
+    /// number -> string prints negative zero as "-0"
+    pub neg_zero: bool,
+    /// attribute and namespace nodes have no parent (DOM view): parent/ancestor/sibling/following/preceding
+    /// from them select nothing; their child/descendant axes expose DOM children (not emulated: `tainted`)
+    pub attr_dom_view: bool,
+}
+pub const DEV_NAMES: &[&str] = &["neg-zero-string", "attr-dom-view"];
+impl Dev {
+    pub fn from_mask(m: u32) -> Dev { Dev { neg_zero: m & 1 != 0, attr_dom_view: m & 2 != 0 } }
+    pub fn names(m: u32) -> String { DEV_NAMES.iter().enumerate().filter(|(i, _)| m & (1 << i) != 0).map(|(_, n)| *n).collect::<Vec<_>>().join("+") }
+    pub const COUNT: u32 = 2;
+}
+
+pub struct Env<'a> { pub tree: &'a RTree, pub ns: Vec<(String, String)>, pub default_ns: Option<String>, pub dev: Dev, pub tainted: std::cell::Cell<bool> }
 
 #[derive(Clone, Copy)]
 pub struct Cx { pub node: usize, pub pos: usize, pub size: usize }
@@ -353,7 +372,7 @@ pub fn xpath_substring(s: &str, start: f64, len: Option<f64>) -> String {
 
 impl<'a> Env<'a> {
     fn to_str(&self, v: &RV) -> String {
-        match v { RV::Str(s) => s.clone(), RV::Bool(b) => if *b { "true".into() } else { "false".into() }, RV::Num(n) => num_to_str(*n), RV::Nodes(ns) => ns.first().map(|n| self.tree.string_value(*n)).unwrap_or_default() }
+        match v { RV::Str(s) => s.clone(), RV::Bool(b) => if *b { "true".into() } else { "false".into() }, RV::Num(n) => if self.dev.neg_zero && *n == 0.0 && n.is_sign_negative() { "-0".into() } else { num_to_str(*n) }, RV::Nodes(ns) => ns.first().map(|n| self.tree.string_value(*n)).unwrap_or_default() }
     }
     fn to_num(&self, v: &RV) -> f64 { match v { RV::Num(n) => *n, RV::Bool(b) => if *b { 1.0 } else { 0.0 }, RV::Str(s) => str_to_num(s), RV::Nodes(_) => str_to_num(&self.to_str(v)) } }
     fn to_bool(&self, v: &RV) -> bool { match v { RV::Bool(b) => *b, RV::Num(n) => !(*n == 0.0 || n.is_nan()), RV::Str(s) => !s.is_empty(), RV::Nodes(ns) => !ns.is_empty() } }
@@ -363,6 +382,14 @@ impl<'a> Env<'a> {
     fn axis(&self, axis: Axis, n: usize) -> Vec<usize> {
         let t = self.tree;
         let nd = &t.nodes[n];
+        if self.dev.attr_dom_view && matches!(nd.kind, RKind::Attr | RKind::Ns) {
+            match axis {
+                Axis::SelfAxis | Axis::AncestorOrSelf => return vec![n],
+                Axis::Child | Axis::Descendant => { if nd.kind == RKind::Attr { self.tainted.set(true); } return vec![]; }
+                Axis::DescendantOrSelf => { if nd.kind == RKind::Attr { self.tainted.set(true); } return vec![n]; }
+                _ => return vec![],
+            }
+        }
         match axis {
             Axis::Child => nd.children.clone(),
             Axis::Attribute => nd.attrs.clone(),
@@ -426,7 +453,7 @@ impl<'a> Env<'a> {
     fn step(&self, s: &Step, input: &[usize]) -> Result<Vec<usize>, RErr> {
         let mut out: Vec<usize> = vec![];
         let mut ctxs: Vec<usize> = input.to_vec();
-        if s.dslash { let mut v = vec![]; for &n in input { v.push(n); self.tree.descendants(n, &mut v); } v.sort(); v.dedup(); ctxs = v; }
+        if s.dslash { let mut v = vec![]; for &n in input { if self.dev.attr_dom_view && self.tree.nodes[n].kind == RKind::Attr { self.tainted.set(true); } v.push(n); self.tree.descendants(n, &mut v); } v.sort(); v.dedup(); ctxs = v; }
         for &n in &ctxs {
             let mut cand = vec![];
             for m in self.axis(s.axis, n) { if self.test(s.axis, &s.test, m)? { cand.push(m); } }
@@ -547,6 +574,7 @@ impl<'a> Env<'a> {
             "lang" => {
                 arity(1, 1)?; let want = self.to_str(&ev(0)?).to_ascii_lowercase();
                 let mut n = Some(cx.node);
+                if self.dev.attr_dom_view && matches!(t.nodes[cx.node].kind, RKind::Attr | RKind::Ns) { n = None; }
                 while let Some(x) = n {
                     if let Some(&a) = t.nodes[x].attrs.iter().find(|&&a| t.nodes[a].local == "lang" && t.nodes[a].uri.as_deref() == Some(model::XML_NS)) {
                         let have = t.nodes[a].value.to_ascii_lowercase();
@@ -557,7 +585,7 @@ impl<'a> Env<'a> {
                 Ok(RV::Bool(false))
             }
             "number" => { arity(0, 1)?; if args.is_empty() { Ok(RV::Num(str_to_num(&t.string_value(cx.node)))) } else { let v = ev(0)?; Ok(RV::Num(self.to_num(&v))) } }
-            "sum" => { arity(1, 1)?; match ev(0)? { RV::Nodes(ns) => Ok(RV::Num(ns.iter().map(|&n| str_to_num(&t.string_value(n))).sum())), _ => Err(RErr::Type("sum".into())) } }
+            "sum" => { arity(1, 1)?; match ev(0)? { RV::Nodes(ns) => Ok(RV::Num(ns.iter().map(|&n| str_to_num(&t.string_value(n))).fold(0.0, |a, b| a + b))), _ => Err(RErr::Type("sum".into())) } }
             "floor" => { arity(1, 1)?; let v = ev(0)?; Ok(RV::Num(self.to_num(&v).floor())) }
             "ceiling" => { arity(1, 1)?; let v = ev(0)?; Ok(RV::Num(self.to_num(&v).ceil())) }
             "round" => { arity(1, 1)?; let v = ev(0)?; Ok(RV::Num(xpath_round(self.to_num(&v)))) }
